@@ -281,27 +281,48 @@ func (e *Env) localByName(name string) (Val, bool) {
 			}
 		}
 	}
-	// source-level names through DebugRef (ssa.GlobalDebug)
+	// source-level names through DebugRef (ssa.GlobalDebug).  With a current
+	// block known, the definition that dominates it most closely is taken
+	// (innermost scope / latest assignment); otherwise the name must be unique.
 	var cand ssa.Value
 	ncand := 0
+	bestDepth, bestIdx := -1, -1
+	var dbest ssa.Value
 	for _, b := range e.fn.Blocks {
-		for _, in := range b.Instrs {
-			if d, ok := in.(*ssa.DebugRef); ok && !d.IsAddr {
-				if id, ok := d.Expr.(*ast.Ident); ok && id.Name == name {
-					if _, have := e.st.vals[d.X]; have {
-						if cand != d.X {
-							ncand++
-						}
-						cand = d.X
-					} else if c, isConst := d.X.(*ssa.Const); isConst {
-						_ = c
-					}
+		for idx, in := range b.Instrs {
+			d, ok := in.(*ssa.DebugRef)
+			if !ok || d.IsAddr {
+				continue
+			}
+			id, ok := d.Expr.(*ast.Ident)
+			if !ok || id.Name != name {
+				continue
+			}
+			if _, have := e.st.vals[d.X]; !have {
+				if _, isConst := d.X.(*ssa.Const); !isConst {
+					continue
+				}
+			}
+			if cand != d.X {
+				ncand++
+			}
+			cand = d.X
+			if e.block != nil && (b == e.block || b.Dominates(e.block)) {
+				depth := 0
+				for x := b; x != nil; x = x.Idom() {
+					depth++
+				}
+				if depth > bestDepth || depth == bestDepth && idx > bestIdx {
+					bestDepth, bestIdx, dbest = depth, idx, d.X
 				}
 			}
 		}
 	}
+	if dbest != nil {
+		return e.r.val(e.st, dbest), true
+	}
 	if ncand == 1 {
-		return e.st.vals[cand], true
+		return e.r.val(e.st, cand), true
 	}
 	for _, fv := range e.fn.FreeVars {
 		if fv.Name() == name {
